@@ -113,7 +113,7 @@ fn run_with(program: &CaoCompiledProgram, inputs: &[DVal], sched: Option<&Sched>
     res
 }
 
-fn outcomes_differ(a: &VmOutcome, b: &VmOutcome) -> Option<(String, String)> {
+pub fn outcomes_differ(a: &VmOutcome, b: &VmOutcome) -> Option<(String, String)> {
     if a.result != b.result {
         return Some((format!("result:{}->{}", b.result, a.result), format!("the run ends with {} instead of {}", a.result, b.result)));
     }
